@@ -1,20 +1,68 @@
 package simrt
 
-// Package-level variables of the system under test are process-global state:
-// every simulated run (and every server instance inside a run) would otherwise
-// see what earlier runs left in them, and a failure would depend on the runs
-// that happened to precede it in the same worker process.  The instrumenter
-// appends, to every file that declares package-level variables, an init
-// function that registers a closure re-running their initialisers; the runner
-// calls ResetGlobals before every run.
-var resets []func()
+// Package-level variables of the system under test are process-global state.
+// Left alone, every simulated run - and every server instance inside a run,
+// the reference servers included - would share them: a failure would depend on
+// the runs that happened to precede it in the same worker process, and a cache
+// that a change keeps in a package variable would be shared between the system
+// under test and the fresh reference it is compared with.  The instrumenter
+// therefore appends, to every file that declares package-level variables, an
+// init function that registers each variable here; the runner calls
+// ResetGlobals before every run, and every simulated server instance switches
+// to its own copy of all of them when it becomes active (ActivateGlobals).
+type global struct {
+	save   func() any
+	load   func(any)
+	reinit func()
+}
 
-// RegisterReset is called from generated init functions.
-func RegisterReset(f func()) { resets = append(resets, f) }
+var (
+	globals     []global
+	globalStore = map[any][]any{}
+	globalCur   any
+)
 
-// ResetGlobals re-initialises every registered package-level variable.
+// RegisterVar is called from generated init functions: p is the address of a
+// package-level variable, reinit re-runs its initialiser.
+func RegisterVar[T any](p *T, reinit func()) {
+	globals = append(globals, global{
+		save:   func() any { return *p },
+		load:   func(x any) { *p = x.(T) },
+		reinit: reinit,
+	})
+}
+
+// ResetGlobals re-initialises every registered variable and forgets all
+// per-instance copies.
 func ResetGlobals() {
-	for _, f := range resets {
-		f()
+	for _, g := range globals {
+		g.reinit()
 	}
+	globalStore = map[any][]any{}
+	globalCur = nil
+}
+
+// ActivateGlobals makes the copies that belong to instance key current; an
+// instance seen for the first time starts from freshly initialised variables.
+func ActivateGlobals(key any) {
+	if key == globalCur || len(globals) == 0 {
+		return
+	}
+	if globalCur != nil {
+		vals := make([]any, len(globals))
+		for i, g := range globals {
+			vals[i] = g.save()
+		}
+		globalStore[globalCur] = vals
+	}
+	if vals, ok := globalStore[key]; ok {
+		for i, g := range globals {
+			g.load(vals[i])
+		}
+	} else {
+		for _, g := range globals {
+			g.reinit()
+		}
+	}
+	globalCur = key
 }
